@@ -26,16 +26,32 @@ def hub_graph(rng, n, mixed=True, extra=None):
                     U.append(sorted([a, b]))
                 else:
                     D.append([a, b])
+    # one start node t that is nobody's parent gets a private non-start ancestor (half of the time)
+    t = rng.choice([v for v in S if v != hub]) if len(S) > 1 and rng.random() < 0.5 else None
+    if t is not None:
+        D = [e for e in D if e[0] != t]
+        U = [e for e in U if t not in e]
     # non-start ancestors: each hangs on ONE start node (or on another non-start node: a chain)
     placed = []
     for u in rest:
         tgt = rng.choice(S) if not placed or rng.random() < 0.7 else rng.choice(placed)
+        if t is not None and not placed:
+            tgt = t
         if mixed and rng.random() < 0.25:
             U.append(sorted([u, tgt]))
         else:
             D.append([u, tgt])
         placed.append(u)
-    return gr.G(range(n), D=D, U=U), sorted(S)
+    g = gr.G(range(n), D=D, U=U)
+    if rng.random() < 0.6:
+        # CPython iterates a set of small ints in ascending order: let the hub be expanded first and t wait at the left end
+        Ss = sorted(S)
+        first = [hub] + ([t] if t is not None else [])
+        img = dict(zip(first + [v for v in Ss if v not in first], Ss))
+        f = lambda v: img.get(v, v)  # noqa: E731
+        g = gr.relabel(g, f)
+        g["V"] = sorted(g["V"])
+    return g, sorted(S)
 
 
 def hub_dag(rng, n):
